@@ -157,11 +157,18 @@ def build(scr, case):
 def run_rebuild(layout, case, dest):
     """Run Assembler under the drawn enumeration order; returns (count, exception)."""
     mfs = [layout["metadir"]] if case["metafiles_as_dir"] else list(layout["metafiles"])
+    asm = None
     try:
         with target.quiet(), listdir.ListdirOrder(case["order"]):
             asm = target.rebuild.Assembler(mfs, list(layout["search"]), dest)
             return asm.assemble_torrents(), None
     except Exception as e:  # noqa: BLE001
+        # drop the frames (and whatever huge structures they hold) before going on: a runaway loop in the code under
+        # test that ended in MemoryError must not starve the harness afterwards
+        e.__traceback__ = None
+        asm = None
+        import gc
+        gc.collect()
         return None, e
 
 
